@@ -202,14 +202,14 @@ Read(cls) ==
 
 ReadByte ==
   LET r == [E0 EXCEPT !.ev = "ReadByte"] IN
-  IF ri > si THEN Do([r EXCEPT !.err = "nil", !.out = <<data[T(si) + 1]>>],
+  IF ri > si THEN Do([r EXCEPT !.err = "nil", !.ret = K, !.out = <<data[T(si) + 1]>>],
                      si, ri - K, wi - K, cap, Cut(data, T(si), T(si) + 1), slots, nxt)
-  ELSE IF BUG_ReadEOF /\ ri > 0 THEN Keep([r EXCEPT !.err = "nil", !.out = <<0>>])   \* stale byte, no error
+  ELSE IF BUG_ReadEOF /\ ri > 0 THEN Keep([r EXCEPT !.err = "nil", !.ret = K, !.out = <<-1>>])   \* stale byte, no error
   ELSE Keep([r EXCEPT !.err = "eof"])
 
 UnreadByte ==
   LET r == [E0 EXCEPT !.ev = "UnreadByte"] IN
-  IF wi > ri THEN Do([r EXCEPT !.err = "nil"], si, ri, wi - K, cap, SubSeq(data, 1, Len(data) - 1), slots, nxt)
+  IF wi > ri THEN Do([r EXCEPT !.err = "nil", !.ret = K], si, ri, wi - K, cap, SubSeq(data, 1, Len(data) - 1), slots, nxt)
   ELSE Keep([r EXCEPT !.err = "eof"])
 
 \* reader scripts: how many tokens it delivers into the room it is offered, and its error
@@ -306,24 +306,69 @@ Classes == {"NEG", "ZERO", "ONE", "TWO", "AVAIL", "AVAIL1", "HUGE", "MINHUGE"}
 ArbIdx == {"NEG", "ZERO", "ONE", "SI", "SI1", "HUGE", "MINHUGE"}
 ArbLen == {"NEG", "ZERO", "ONE", "SI", "SI1", "HUGE"}
 
-Step ==
+\* action descriptors <<kind, parameter, parameter>>
+Acts ==
+  {<<"Write", "Write", 1>>, <<"Write", "Write", 2>>, <<"Write", "WriteString", 1>>, <<"Write", "WriteByte", 1>>}
+  \cup {<<"Reserve", c, 0>> : c \in {"NEG", "ZERO", "ONE", "RES", "RES1", "GROW", "HUGE", "MINHUGE"}}
+  \cup {<<k, c, 0>> : k \in {"Commit", "Consume", "Save", "ShrinkBy"}, c \in Classes}
+  \cup {<<"ShrinkTo", c, 0>> : c \in Classes \ {"TWO"}}
+  \cup {<<"DiscardSel", j, 0>> : j \in 1..Len(slots)}
+  \cup (IF ArbOn THEN {<<"DiscardArb", ic, lc>> : ic \in ArbIdx, lc \in ArbLen} ELSE {})
+  \cup {<<"DiscardAll", 0, 0>>, <<"Reset", 0, 0>>, <<"Prefault", 0, 0>>, <<"ReadByte", 0, 0>>, <<"UnreadByte", 0, 0>>}
+  \cup {<<"Read", c, 0>> : c \in {"ZERO", "ONE", "TWO", "AVAIL", "AVAIL1"}}
+  \cup {<<"ReadFrom", "ReadFrom", sc>> : sc \in RScripts}
+  \cup {<<"ReadFrom", "AsyncReadFrom", sc>> : sc \in ARScripts}
+  \cup {<<"WriteTo", sc, 0>> : sc \in WScripts}
+  \cup {<<"AsyncWriteTo", sc, 0>> : sc \in AWScripts}
+  \cup {<<"PrepareRead", c, 0>> : c \in {"NEG", "ZERO", "ONE", "RL", "RL1", "AVAIL", "AVAIL1", "HUGE", "MINHUGE"}}
+  \cup {<<k, c, 0>> : k \in {"Claim", "ClaimFixed"}, c \in {"NEG", "ZERO", "ONE", "TWO", "RES", "RES1", "HUGE"}}
+
+Apply(a) ==
+  CASE a[1] = "Write" -> Write(a[2], a[3])
+    [] a[1] = "Reserve" -> Reserve(a[2])
+    [] a[1] = "Commit" -> Commit(a[2])
+    [] a[1] = "Consume" -> Consume(a[2])
+    [] a[1] = "Save" -> Save(a[2])
+    [] a[1] = "ShrinkBy" -> ShrinkBy(a[2])
+    [] a[1] = "ShrinkTo" -> ShrinkTo(a[2])
+    [] a[1] = "DiscardSel" -> Discard(a[2])
+    [] a[1] = "DiscardArb" -> DiscardArb(a[2], a[3])
+    [] a[1] = "DiscardAll" -> DiscardAll
+    [] a[1] = "Reset" -> Reset
+    [] a[1] = "Prefault" -> Prefault
+    [] a[1] = "ReadByte" -> ReadByte
+    [] a[1] = "UnreadByte" -> UnreadByte
+    [] a[1] = "Read" -> Read(a[2])
+    [] a[1] = "ReadFrom" -> ReadFrom(a[2], a[3])
+    [] a[1] = "WriteTo" -> WriteTo(a[2])
+    [] a[1] = "AsyncWriteTo" -> AsyncWriteTo(a[2])
+    [] a[1] = "PrepareRead" -> PrepareRead(a[2])
+    [] a[1] = "Claim" -> Claim(a[2])
+    [] a[1] = "ClaimFixed" -> ClaimFixed(a[2])
+
+Step == UNCHANGED done /\ \E a \in Acts : Apply(a)
+
+\* ---- random long histories (simulation mode): one weighted random action per step, so
+\* that TLC evaluates one successor instead of all of them ----
+ClaimTok(cls) == LET n == ClaimVal(cls) IN IF n >= 0 /\ n <= Room THEN T(n) ELSE 0
+Guard(a) ==
+  CASE a[1] = "Write" -> nxt + a[3] <= MaxW
+    [] a[1] = "Reserve" -> LET n == CASE a[2] = "RES1" -> Room + 1 [] a[2] = "GROW" -> Room + 2 * K [] a[2] = "ONE" -> K [] OTHER -> 0
+                           IN n <= Room \/ Grow(cap, cap + n - Room) <= MaxCap
+    [] a[1] = "ReadFrom" -> nxt + RTok(a[3]) <= MaxW
+    [] a[1] \in {"Claim", "ClaimFixed"} -> nxt + ClaimTok(a[2]) <= MaxW
+    [] OTHER -> TRUE
+Weights == <<"Write", "Write", "Write", "Write", "Claim", "ClaimFixed", "ReadFrom", "Commit", "Commit", "Commit", "Commit",
+             "Consume", "Save", "Save", "Save", "DiscardSel", "DiscardSel", "DiscardSel", "DiscardArb", "Read", "ReadByte",
+             "WriteTo", "AsyncWriteTo", "PrepareRead", "PrepareRead", "ShrinkBy", "ShrinkTo", "Reserve", "Reserve",
+             "UnreadByte", "Prefault", "Any", "Any">>
+\* (bound variables, not LET: a LET body would re-evaluate RandomElement at every use)
+SimStep ==
   /\ UNCHANGED done
-  /\ \/ \E m \in {1, 2} : Write("Write", m)
-     \/ Write("WriteString", 1) \/ Write("WriteByte", 1)
-     \/ \E c \in {"NEG", "ZERO", "ONE", "RES", "RES1", "GROW", "HUGE", "MINHUGE"} : Reserve(c)
-     \/ \E c \in Classes : Commit(c) \/ Consume(c) \/ Save(c) \/ ShrinkBy(c)
-     \/ \E c \in Classes \ {"TWO"} : ShrinkTo(c)
-     \/ \E j \in 1..Len(slots) : Discard(j)
-     \/ (ArbOn /\ \E ic \in ArbIdx, lc \in ArbLen : DiscardArb(ic, lc))
-     \/ DiscardAll \/ Reset \/ Prefault
-     \/ \E c \in {"ZERO", "ONE", "TWO", "AVAIL", "AVAIL1"} : Read(c)
-     \/ ReadByte \/ UnreadByte
-     \/ \E s \in RScripts : ReadFrom("ReadFrom", s)
-     \/ \E s \in ARScripts : ReadFrom("AsyncReadFrom", s)
-     \/ \E s \in WScripts : WriteTo(s)
-     \/ \E s \in AWScripts : AsyncWriteTo(s)
-     \/ \E c \in {"NEG", "ZERO", "ONE", "RL", "RL1", "AVAIL", "AVAIL1", "HUGE", "MINHUGE"} : PrepareRead(c)
-     \/ \E c \in {"NEG", "ZERO", "ONE", "TWO", "RES", "RES1", "HUGE"} : Claim(c) \/ ClaimFixed(c)
+  /\ \E w \in {RandomElement(1..Len(Weights))} :
+       LET en == {a \in Acts : Guard(a)}
+           ofkind == {a \in en : a[1] = Weights[w]}
+       IN \E a \in {RandomElement(IF ofkind = {} THEN en ELSE ofkind)} : Apply(a)
 
 Finish == /\ ~done /\ done' = TRUE /\ UNCHANGED <<implvars, monvars, hist>>
 
@@ -333,6 +378,12 @@ Next ==
     ELSE Step
 
 Spec == Init /\ [][Next]_vars
+
+SimNext ==
+  IF bad # "" \/ (MaxHist > 0 /\ Len(hist) >= MaxHist)
+    THEN MaxHist > 0 /\ Finish
+    ELSE SimStep
+SimSpec == Init /\ [][SimNext]_vars
 
 \* ---- properties ----
 NotBad == bad = ""
